@@ -28,7 +28,17 @@ def moment_linear_out(g: torch.Tensor) -> torch.Tensor:
 
 def conv_patches(x: torch.Tensor, conv) -> torch.Tensor:
     """rows = (batch, position), columns = (channel, kh, kw) - torch's own im2col."""
-    p = F.unfold(x.detach().to(D), conv.kernel_size, padding=conv.padding, stride=conv.stride, dilation=conv.dilation)
+    xd = x.detach().to(D)
+    pad = conv.padding
+    if isinstance(pad, str):
+        # torch's documented string paddings: 'valid' = none; 'same' = dilation*(k-1) zeros per dimension, the smaller half first
+        if pad == 'valid':
+            pad = (0, 0)
+        else:
+            tot = [d * (k - 1) for k, d in zip(conv.kernel_size, conv.dilation)]
+            xd = F.pad(xd, (tot[1] // 2, tot[1] - tot[1] // 2, tot[0] // 2, tot[0] - tot[0] // 2))
+            pad = (0, 0)
+    p = F.unfold(xd, conv.kernel_size, padding=pad, stride=conv.stride, dilation=conv.dilation)
     return p.transpose(1, 2)  # B, S, C*kh*kw
 
 
